@@ -14,15 +14,18 @@ theorem int_truncated (be : Bool) (w : Nat) (b : Bytes) (h : b.length < w) :
     intDecode be w b = .error .incomplete := intDecode_short be w b h
 
 /-- packed BCD: every value of every integer width round-trips. -/
-theorem bcd_roundtrip (w n : Nat) (h : n < 256 ^ w) : bcdDec w (bcdEnc n) = .ok (n, []) := bcdDec_bcdEnc w n h
+theorem bcd_roundtrip (w n : Nat) (h : n < 256 ^ w) : bcdDec w (bcdEncK n) = .ok (n, []) := by
+  rw [bcdEncK_eq]; exact bcdDec_bcdEnc w n h
 
 /-- the encoder emits decimal digits only (both nibbles 0–9) … -/
-theorem bcd_digits_only (n : Nat) : ∀ b ∈ bcdEnc n, b.toNat / 16 ≤ 9 ∧ b.toNat % 16 ≤ 9 := bcdEnc_digits n
+theorem bcd_digits_only (n : Nat) : ∀ b ∈ bcdEncK n, b.toNat / 16 ≤ 9 ∧ b.toNat % 16 ≤ 9 := by
+  rw [bcdEncK_eq]; exact bcdEnc_digits n
 
 /-- … most significant digit first: the bytes of `n` are the bytes of `n / 100` followed by the
 byte holding the last two decimal digits. -/
 theorem bcd_msd_first (n : Nat) (h : n ≠ 0) :
-    bcdEnc n = bcdEnc (n / 100) ++ [byte ((n / 10 % 10) * 16 + n % 10)] := bcdEnc_pos n h
+    bcdEncK n = bcdEncK (n / 100) ++ [byte ((n / 10 % 10) * 16 + n % 10)] := by
+  simp only [bcdEncK_eq]; exact bcdEnc_pos n h
 
 /-- Digits that do not fit the target integer are an error, never a wrapped value: the decoder
 returns exactly the unbounded value of the digit string when that fits `w` bytes, and
@@ -88,7 +91,7 @@ theorem receiptNo_roundtrip (n : Nat) (h : n ≤ 9999) (d : Bytes) :
     rcases hb with ⟨_, rfl⟩ | hb
     · decide
     · exact (hdig b hb).2
-  simp only [prrnEnc, hne, if_false]
+  simp only [prrnEnc, hne, if_false, bcdEncK_eq]
   match hp : padLeft 2 (bcdEnc n), hpl with
   | [b0, b1], _ =>
     rw [hp] at hdec hmem
